@@ -388,6 +388,20 @@ func init() {
 		if b.Obj != nil {
 			name := ex.freshName("rand")
 			fl := freshLayer(name)
+			// outputs of the CSPRNG of at least 8 bytes are assumed pairwise distinct
+			if n, ok := b.Len.ConstVal(); ok && n >= 8 && n <= 64 {
+				cur := make([]*Term, n)
+				for i := range cur {
+					cur[i] = Select(name, BV(64, uint64(i)))
+				}
+				prev, _ := ex.ghost["randOutputs"].([][]*Term)
+				for _, p := range prev {
+					if len(p) == len(cur) {
+						ex.assume(Not(eqAll(p, cur)))
+					}
+				}
+				ex.ghost["randOutputs"] = append(prev, cur)
+			}
 			if b.Obj.IsBytes {
 				b.Obj.Top = b.Obj.Top.copyFrom(b.Off, fl, BV(64, 0), b.Len)
 			} else {
